@@ -163,7 +163,7 @@ func RunParent(chk *Check, tier string) int {
 		cmd.Stderr = errf
 		cmd.Env = append(os.Environ(), "VERIF_WORKER=1")
 		if chk.Binary == "race" {
-			cmd.Env = append(cmd.Env, "GORACE=halt_on_error=0 log_path="+filepath.Join(workDir, fmt.Sprintf("race.w%d%s", w, tag)))
+			cmd.Env = append(cmd.Env, "GORACE=halt_on_error=0 exitcode=0 log_path="+filepath.Join(workDir, fmt.Sprintf("race.w%d%s", w, tag)))
 		}
 		if chk.Binary == "asan" {
 			cmd.Env = append(cmd.Env, "ASAN_OPTIONS=detect_leaks=0:abort_on_error=1:halt_on_error=1")
